@@ -104,7 +104,25 @@ def card(dom):
 # ---------------------------------------------------------------------------------------
 # ground instantiation of the quantize / grid axioms
 # ---------------------------------------------------------------------------------------
+_APPS_CACHE = {}
+
+
 def _collect(e, seen, apps):
+    """memoised per top-level formula (hypotheses are shared by many obligations of the same function)"""
+    eid = e.get_id()
+    hit = _APPS_CACHE.get(eid)
+    if hit is None:
+        local = {}
+        _collect_raw(e, set(), local)
+        if len(_APPS_CACHE) > 200000:
+            _APPS_CACHE.clear()
+        _APPS_CACHE[eid] = (e, local)
+        hit = (e, local)
+    for nm, d in hit[1].items():
+        apps.setdefault(nm, {}).update(d)
+
+
+def _collect_raw(e, seen, apps):
     stack = [e]
     while stack:
         t = stack.pop()
@@ -293,7 +311,24 @@ def linear_grid_axioms(eqs, atoms):
     return out
 
 
+_EQ_CACHE = {}
+
+
 def _real_equalities(fs):
+    out = []
+    for f in fs:
+        fid = f.get_id()
+        hit = _EQ_CACHE.get(fid)
+        if hit is None:
+            hit = (f, _real_equalities_raw([f]))
+            if len(_EQ_CACHE) > 200000:
+                _EQ_CACHE.clear()
+            _EQ_CACHE[fid] = hit
+        out.extend(hit[1])
+    return out
+
+
+def _real_equalities_raw(fs):
     out = []
     seen = set()
     stack = list(fs)
